@@ -3,5 +3,6 @@ CONSTANTS
   N = 2
   Rad = 1
   Bug = 10
+  OldDistance = FALSE
 CHECK_DEADLOCK FALSE
 INVARIANTS ShrinkStretchLaw
